@@ -250,7 +250,69 @@ def rule_cadence(ctx):
     ctx.covered('R06.5', 'cadence bookkeeping: per mode test/advance/save agree and the deadline is advanced before the snapshot; setters re-arm only on change; heartbeat placement', n, floor=6, samples=samples)
 
 
+def rule_index_arrays(ctx):
+    """R06.7: the index of an archive is a set of parallel arrays (time, offset) with one entry per accepted snapshot. A
+    snapshot after the first is a delta: any field may be absent from it. Every index array therefore needs, in the
+    per-snapshot loop, a write of entry i that does not depend on a particular field being present (a default, or a value
+    computed from the file position) before the snapshot is accepted (nblobs = i+1)."""
+    from .c16 import c08_conditions
+    tu = cfront.load_tu('simulationarchive.c')
+    fn = tu.func('reb_read_simulationarchive_from_stream_with_messages')
+    arrays = set()
+    for e in walk(cfront.body(fn)):
+        if is_assign(e) and e['opcode'] == '=':
+            rhs = strip(e['inner'][1], casts=True)
+            if rhs.get('kind') == 'CallExpr' and callee_name(rhs) in ('malloc', 'realloc') and 'nblobsmax' in render(rhs):
+                lv = strip(e['inner'][0])
+                if lv.get('kind') == 'MemberExpr':
+                    arrays.add(lv['name'])
+    anchor(len(arrays) >= 2, 'index arrays sized by nblobsmax in the archive reader (found %s)' % sorted(arrays))
+    n = 0
+    samples = []
+    loops = [f for f in walk(cfront.body(fn)) if f.get('kind') == 'ForStmt' and any(is_assign(x) and render(x['inner'][0]).replace(' ', '') == 'sa.nblobs' for x in walk(f))]
+    anchor(len(loops) == 1, 'the per-snapshot loop of the index walk (assigns sa->nblobs)')
+    loop = loops[0]
+    lv_ = None
+    for d in walk(loop['inner'][0] or {}):
+        if d.get('kind') == 'VarDecl':
+            lv_ = d['name']
+    anchor(lv_ is not None, 'loop variable of the index walk')
+    conds = c08_conditions(fn)
+    for arr in sorted(arrays):
+        n += 1
+        uncond = []
+        any_write = False
+        for e in walk(loop['inner'][-1]):
+            tgt = None
+            if is_assign(e) and e['opcode'] == '=':
+                tgt = strip(e['inner'][0])
+            elif e.get('kind') == 'CallExpr' and callee_name(e) == 'fread' and call_args(e):
+                a0 = strip(call_args(e)[0], casts=True)
+                while a0.get('kind') in ('UnaryOperator', 'ParenExpr') and a0.get('inner'):
+                    a0 = strip(a0['inner'][0], casts=True)
+                tgt = a0
+            if tgt is None or tgt.get('kind') != 'ArraySubscriptExpr':
+                continue
+            base = strip(tgt['inner'][0], casts=True)
+            if base.get('kind') != 'MemberExpr' or base['name'] != arr or render(tgt['inner'][1]).replace(' ', '') != lv_:
+                continue
+            any_write = True
+            stack = conds.get(id(e), [])
+            if not any('field.type' in c.replace(' ', '') or 'field' in c and 'type' in c for c in stack):
+                uncond.append(line_of(e))
+        where = 'src/simulationarchive.c:%s reb_read_simulationarchive_from_stream_with_messages' % line_of(loop)
+        if not any_write:
+            raise AnalysisError('R06.7: index array %s is never written for entry %s in the per-snapshot loop' % (arr, lv_))
+        if not uncond:
+            ctx.report('R06.7', 'index:%s:default' % arr, where,
+                       'sa->%s[%s] is only written when a particular field is present in the delta snapshot; a snapshot without that field (its value equals the first snapshot\'s) leaves the entry as malloc returned it' % (arr, lv_))
+        else:
+            samples.append('%s: sa->%s[%s] written independently of the fields present (line %s)' % (where, arr, lv_, uncond[0]))
+    ctx.covered('R06.7', 'archive index: every per-snapshot array has a field-independent write of entry i before the snapshot is accepted', n, floor=2, samples=samples)
+
+
 def run(ctx):
+    rule_index_arrays(ctx)
     bytesacct.rule_writer(ctx, 'R06.1', [('binarydiff.c', 'reb_binary_diff'), ('simulationarchive.c', 'reb_simulation_save_to_file')], floor=4)
     rule_append_protocol(ctx)
     rule_reader(ctx)
